@@ -891,3 +891,62 @@ def spec_const(ctx):
                 ctx.ok('lzma-props-formula', f.loc(0), 'props = (pb*5 + lp)*9 + lc')
             else:
                 ctx.violation('lzma-props-formula', f.loc(0), 'properties byte is %s, LZMA_Alone/LZMA2 define (pb*5 + lp)*9 + lc' % shape)
+
+
+@rule('PER-UNIT-RESET', ['C12', 'C04'], floor=3)
+def per_unit_reset(ctx):
+    """Per-member / per-block running state is re-initialised when the next unit starts: every field
+    of a container reader that `read` accumulates into (self-referential `+=` store, or receiver of a
+    digest `update`) is assigned afresh on the success path of the function that constructs the next
+    unit's decoder."""
+    F = ctx.facts
+    n = 0
+    for adt in ('LZIPReader', 'XZReader'):
+        ms = methods_of(F, adt)
+        rd = [f for f in ms if f.impl and last_seg(f.impl.get('trait')) == 'Read' and f.name == 'read']
+        if not rd:
+            ctx.anchor_missing('<%s as Read>::read' % adt)
+            continue
+        f = rd[0]
+        prov = Prov(f)
+        acc = {}
+        for bi, si, name, rv in self_field_stores(f):
+            e = prov.rvalue(rv, 0, '%d:%d' % (bi, si))
+            if any(x[0] == 'field' and x[2] == name and self_field_of(x) for x in expr_walk(e)):
+                acc[name] = (bi, 'accumulated with a self-referential store')
+        for bi, t, c in f.calls():
+            if c.name == 'update' and t['args']:
+                e = prov.operand(t['args'][0], 0, '%d:T' % bi)
+                for x in expr_walk(e):
+                    if x[0] == 'field':
+                        sf = self_field_of(x)
+                        if sf:
+                            acc.setdefault(sf[0], (bi, 'fed through update()'))
+        openers = [g for g in ms if any(c.is_('LZMAReader::new', 'LZMA2Reader::new', 'LZMAReader::new_mem_limit', 'LZMAReader::new_with_props')
+                                       for _, _, c in g.calls())]
+        if not openers or not acc:
+            ctx.anchor_missing('%s: unit opener (%d) / accumulated fields (%d)' % (adt, len(openers), len(acc)))
+            continue
+        g = openers[0]
+        stores = {}
+        for bi, si, name, rv in self_field_stores(g):
+            stores.setdefault(name, []).append(bi)
+        # success exits of the opener: blocks assigning Ok(..) to _0
+        okb = [bi for bi, b in enumerate(g.blocks) for s in b['stmts']
+               if s['k'] == 'assign' and s['lhs']['l'] == 0 and s['rv']['r'] == 'agg' and s['rv'].get('variant_name') == 'Ok'
+               and not (s['rv']['ops'] and s['rv']['ops'][0].get('k') and s['rv']['ops'][0]['k'].get('v') in (0, False) and g.name.startswith('start'))]
+        ctor_blocks = [bi for bi, t, c in g.calls() if c.is_('LZMAReader::new', 'LZMA2Reader::new')]
+        for name, (bi, how) in sorted(acc.items()):
+            n += 1
+            key = '%s.%s:reset-at-unit-start' % (adt, name)
+            sb = stores.get(name, [])
+            # every success exit that lies after a decoder construction must be dominated by a store of the field
+            exits = [o for o in okb if any(o in g.reach_from(g.succs(cb)) for cb in ctor_blocks)]
+            if sb and exits and all(any(g.dominates(s, o) for s in sb) for o in exits):
+                ctx.ok(key, g.loc(sb[0]), 'self.%s (%s in read) is reassigned in %s before it reports the new unit' % (name, how, g.name))
+            else:
+                ctx.violation(key, g.loc(ctor_blocks[0] if ctor_blocks else 0), 'self.%s is %s in read but %s starts the next '
+                              'member/block without re-initialising it: the second unit is verified against state carried '
+                              'over from the first (valid multi-member input is rejected or corruption is masked)' % (name, how, g.name))
+    if n == 0:
+        ctx.anchor_missing('accumulated per-unit fields')
